@@ -1858,26 +1858,38 @@ impl<'de, 'e> de::Deserializer<'de> for YamlDeserializer<'de, 'e> {
                 let data =
                     decode_base64_yaml(&scalar).map_err(|err| err.with_location(data_location))?;
                 /// `SeqAccess` that iterates over bytes from a decoded `!!binary`.
-                struct ByteSeq {
-                    data: Vec<u8>,
-                    idx: usize,
+                struct ByteSeq<'a> {
+                    data: &'a [u8],
+                    idx: &'a mut usize,
                 }
-                impl<'de> de::SeqAccess<'de> for ByteSeq {
+                impl<'de, 'a> de::SeqAccess<'de> for ByteSeq<'a> {
                     type Error = Error;
                     fn next_element_seed<T>(&mut self, seed: T) -> Result<Option<T::Value>, Error>
                     where
                         T: de::DeserializeSeed<'de>,
                     {
-                        if self.idx >= self.data.len() {
+                        if *self.idx >= self.data.len() {
                             return Ok(None);
                         }
-                        let b = self.data[self.idx];
-                        self.idx += 1;
+                        let b = self.data[*self.idx];
+                        *self.idx += 1;
                         let deser = serde::de::value::U8Deserializer::<Error>::new(b);
                         seed.deserialize(deser).map(Some)
                     }
                 }
-                return visitor.visit_seq(ByteSeq { data, idx: 0 });
+                let mut idx = 0usize;
+                let result = visitor.visit_seq(ByteSeq {
+                    data: &data,
+                    idx: &mut idx,
+                })?;
+                // A fixed-length target must account for every byte, like for every element
+                // of a written-out sequence.
+                if idx < data.len() {
+                    return Err(
+                        Error::unexpected("end of the binary payload").with_location(data_location)
+                    );
+                }
+                return Ok(result);
             }
         }
         self.expect_seq_start()?;
@@ -1966,8 +1978,17 @@ impl<'de, 'e> de::Deserializer<'de> for YamlDeserializer<'de, 'e> {
             #[cfg(any(feature = "garde", feature = "validator"))]
             idx: 0,
         })?;
-        if let Some(Ev::SeqEnd { .. }) = self.ev.peek()? {
-            let _ = self.ev.next()?;
+        // The visitor may stop before the sequence does (a tuple of two read from three
+        // elements): the surplus is an error here, where it belongs - otherwise it is taken for
+        // the next mapping entry, sequence item or document.
+        match self.ev.peek()? {
+            Some(Ev::SeqEnd { .. }) => {
+                let _ = self.ev.next()?;
+            }
+            Some(ev) => {
+                return Err(Error::unexpected("sequence end").with_location(ev.location()));
+            }
+            None => {}
         }
         Ok(result)
     }
